@@ -32,20 +32,33 @@ class Inconclusive(Exception):
 class VClock(object):
     """stands in for the module-level name `time` inside mpgameserver modules"""
 
+    # optional mode (default off: the clock stands still within a tick): every READ of any of the three clocks moves the
+    # clock on by this many seconds afterwards, the way a real clock has moved on between two reads made by the same piece of
+    # code - two reads inside one handshake then differ, and may lie on either side of a whole second
+    read_advance = 0.0
+
     def __init__(self, start=EPOCH):
         self.now = start
+        self.reads = 0
+
+    def _read(self):
+        t = self.now
+        if self.read_advance:
+            self.now = t + self.read_advance
+            self.reads += 1
+        return t
 
     def time(self):
-        return self.now
+        return self._read()
 
     # the three clocks tick together but have different origins, as the real ones do (time() counts from 1970,
     # monotonic()/perf_counter() from some point near boot): code that subtracts one from another goes wrong here
     # the way it would in production
     def monotonic(self):
-        return self.now - EPOCH + 4321.5
+        return self._read() - EPOCH + 4321.5
 
     def perf_counter(self):
-        return self.now - EPOCH + 77.25
+        return self._read() - EPOCH + 77.25
 
     def sleep(self, d):
         # a blocking library call made by the driver (UdpClient.waitForDisconnect sleeps between its updates): the world
